@@ -211,7 +211,38 @@ pub fn scenario_n(ctx: &Ctx, idx: u64, n: usize) -> Report {
         report.count("oracle_selftests_passed");
     }
 
+    let hostile = crate::hostile::Hostile::new();
     for i in 0..n {
+        // The codec is used by one thread for everything: what it did before must not matter.
+        // Every so often it is first given something it has to refuse - a message its own types can
+        // hold but BEP5 cannot express (a node of the wrong family inside nodes / nodes6, after some
+        // right ones), or a hostile datagram to decode - and only then the well-formed message.
+        match rng.gen_range(0..20) {
+            0 => {
+                if let Body::Reply(r) = gen::krpc(&mut rng).body {
+                    let mut r = r;
+                    let stray4 = (gen::rand_id(&mut rng), "10.1.2.3:4".parse().unwrap());
+                    let stray6 = (gen::rand_id(&mut rng), "[fd00::1]:4".parse().unwrap());
+                    if rng.gen_bool(0.5) {
+                        r.nodes.push(stray4);
+                        r.nodes.push(stray6);
+                    } else {
+                        r.nodes6.push(stray6);
+                        r.nodes6.push(stray4);
+                    }
+                    if let Some(ill) = to_btdht(&Krpc { t: gen::tid(&mut rng), body: Body::Reply(r) }) {
+                        let _ = ill.encode();
+                        report.count("ill_typed_messages_given_to_the_encoder_first");
+                    }
+                }
+            }
+            1 => {
+                let (bytes, _) = hostile.datagram(&mut rng);
+                let _ = Message::decode(&bytes);
+                report.count("hostile_datagrams_given_to_the_decoder_first");
+            }
+            _ => {}
+        }
         let m = gen::krpc(&mut rng);
         let Some(bm) = to_btdht(&m) else { continue };
         report.evaluations += 1;
@@ -469,6 +500,8 @@ pub fn check(tier: Tier) -> Check {
             ("permutations_checked", tier.pick(500_000, 10_000_000)),
             ("unknown_key_variants_checked", tier.pick(500_000, 10_000_000)),
             ("rejections_checked", tier.pick(500_000, 10_000_000)),
+            ("ill_typed_messages_given_to_the_encoder_first", tier.pick(10_000, 200_000)),
+            ("hostile_datagrams_given_to_the_decoder_first", tier.pick(20_000, 400_000)),
         ],
         exhaustive: false,
     }
